@@ -195,8 +195,29 @@ let () =
           let s = zmax (max_abs pa) (zmax (max_abs pb) (if tr = [] then z_of_int 1 else max_abs (tri_pts tr))) in
           let rr = zmax (shr s 20) (z_of_int 1) in
           let ba = with_boxes ta and bb = with_boxes tb and br = with_boxes tr in
-          let sa = List.filter (fun p -> inside ta p && not (near3 p ba rr)) (grid 4 (bbox_pts pa)) in
-          let sb = List.filter (fun p -> inside tb p && not (near3 p bb rr)) (grid 3 (bbox_pts pb)) in
+          let big = a.nt > 400 || r.nt > 4000 in     (* many-triangle operands: fewer grid samples, targeted ones do the work *)
+          let sa = List.filter (fun p -> inside ta p && not (near3 p ba rr)) (grid (if big then 2 else 4) (bbox_pts pa)) in
+          let sb = List.filter (fun p -> inside tb p && not (near3 p bb rr)) (grid (if big then 2 else 3) (bbox_pts pb)) in
+          (* targeted samples: for up to 96 triangles t of A spread evenly over the whole index range (so that every batch
+             of Impl::Minkowski's triangle loop is hit), the surface point a_t = (2 v0 + v1 + v2)/4 and the vertex b*_t of B
+             that is extreme along t's outward normal; all exact thanks to the 8 spare bits *)
+          let q4 ((x, y), z) k = ((zmul (shr x 2) (z_of_int k), zmul (shr y 2) (z_of_int k)), zmul (shr z 2) (z_of_int k)) in
+          let mk_targeted tris verts =
+            let tarr = Array.of_list tris in
+            let nta = Array.length tarr in
+            let stride = max 1 (nta / 96) in
+            List.filter_map (fun i ->
+              if i mod stride <> 0 || verts = [] then None else begin
+                let ((v0, v1), v2) = tarr.(i) in
+                let at = padd (q4 v0 2) (padd (q4 v1 1) (q4 v2 1)) in
+                let n = fnormal v0 v1 v2 in
+                let best = List.fold_left (fun acc v -> match acc with None -> Some v | Some w -> if zcmp (dot n v) (dot n w) > 0 then Some v else acc) None verts in
+                let worst = List.fold_left (fun acc v -> match acc with None -> Some v | Some w -> if zcmp (dot n v) (dot n w) < 0 then Some v else acc) None verts in
+                match best, worst with Some bs, Some ws -> Some (at, bs, ws) | _ -> None
+              end) (List.init nta (fun i -> i)) in
+          let targeted = mk_targeted ta (Array.to_list (mesh_pts emin b)) in
+          (* the sum is commutative and the library sweeps whichever operand is not convex: also B's triangles against A's vertices *)
+          let targeted_b = if op = "sum" then mk_targeted tb (Array.to_list (mesh_pts emin a)) else [] in
           let origin_in_b = inside tb ((Z0, Z0), Z0) in
           let r_closed = (let n, it = mesh_itris r in r.nt = 0 || (n = r.nv && check_mesh (z_of_int n) it)) in
           if op = "sum" then begin
@@ -215,6 +236,26 @@ let () =
                     end
                   end
                 end) sb) sa;
+            (* targeted: a_t + (3/4) b*_t lies in A (+) B (a_t in the closed solid, (3/4) b* in the convex hull of B's vertices
+               and 0; judged only when B is convex or the point is classified inside B exactly) *)
+            let t_tested = ref 0 and t_missing = ref 0 in
+            let judge other_t other_b other_bb (at, bs, _) =
+                let b34 = q4 bs 3 in
+                if inside other_t b34 && not (near3 b34 other_bb rr) then begin
+                  let p = padd at b34 in
+                  if not (near3 p br rr) then begin
+                    incr t_tested; incr tested;
+                    if not (inside tr p) then begin
+                      incr t_missing; incr missing;
+                      if !first = "" then begin
+                        let f ((x, y), z) = Printf.sprintf "(%g,%g,%g)" (float_of_z x *. 2.0 ** float_of_int emin) (float_of_z y *. 2.0 ** float_of_int emin) (float_of_z z *. 2.0 ** float_of_int emin) in
+                        first := Printf.sprintf "%s=%s(on surface) %s=%s" other_b (f at) (if other_b = "a" then "b" else "a") (f b34)
+                      end
+                    end
+                  end
+                end in
+            List.iter (judge tb "a" bb) targeted;
+            List.iter (judge ta "b" ba) targeted_b;
             (* A subset of Sum *)
             let a_tested = ref 0 and a_missing = ref 0 in
             List.iter (fun p -> if not (near3 p br rr) then begin incr a_tested; if not (inside tr p) then incr a_missing end) sa;
@@ -250,14 +291,21 @@ let () =
                 end in
             (* around the result (inflated box) and, densely, inside the box of A itself: gaps between
                components of A and concavities of A are sampled there *)
-            List.iter far_probe (grid 5 ((dn x0, up x1), (dn y0, up y1), (dn z0, up z1)));
-            List.iter far_probe (grid 6 (bbox_pts pa));
+            List.iter far_probe (grid (if big then 4 else 5) ((dn x0, up x1), (dn y0, up y1), (dn z0, up z1)));
+            List.iter far_probe (grid (if big then 4 else 6) (bbox_pts pa));
             if not !cert then Printf.printf "V %s mink CERTFAIL\n" id
             else Printf.printf "V %s sum %d %d %d %d %d %d %d %d %d %d %d %d %d | %s\n" id status (b2i origin_in_b) (b2i r_closed)
                 (List.length sa) (List.length sb) !tested !missing !skipped !a_tested !a_missing !far_tested !far_inside r.nt (!first ^ " " ^ !far_first)
           end else begin
             (* Difference: D subset of A; p - b in A for p in D, b in B *)
-            let sd = if tr = [] then [] else List.filter (fun p -> inside tr p && not (near3 p br rr)) (grid 5 (bbox_pts (tri_pts tr))) in
+            let sd = if tr = [] then [] else List.filter (fun p -> inside tr p && not (near3 p br rr)) (grid (if big then 3 else 5) (bbox_pts (tri_pts tr))) in
+            (* targeted: p_t = a_t - b*_t/4 is just below face t; with b = (3/4) w_t (w_t = vertex of B most opposite to the
+               normal) p_t - b is usually outside A, so p_t must have been eroded away.  Added to the samples when inside the result. *)
+            let sd_t = if tr = [] then [] else List.filter_map (fun (at, bs, _) ->
+                let p = psubz at (q4 bs 1) in if inside tr p && not (near3 p br rr) then Some p else None) targeted in
+            let sd = sd @ sd_t in
+            let sb = sb @ List.filter (fun b_ -> inside tb b_ && not (near3 b_ bb rr))
+                       (List.sort_uniq compare (List.concat_map (fun (_, bs, ws) -> [q4 bs 3; q4 ws 3]) targeted)) in
             let d_tested = ref 0 and d_outside = ref 0 and e_tested = ref 0 and e_outside = ref 0 and skipped = ref 0 in
             List.iter (fun p ->
                 if near3 p ba rr then incr skipped
